@@ -6,6 +6,7 @@ body bytes must be a value of the documented result type or a pywbem.Error.
 """
 import random
 import re
+import base64
 import warnings
 
 import requests
@@ -172,6 +173,8 @@ def value_ok(v):
 
 # --------------------------------------------------------------- responses --
 
+PADS = ['\n', '\n', '\n', '\n', '\n', ' ', '\t', '\r', '\n\n', '\u00a0', '\u2028', '\x0b', '\x1f',
+        '\u3000', '\ufeff']
 TOKENS = ['', 'x', '-1', '0x', '0x10', '1e999', 'INF', '-INF', 'NaN', 'nan',
           '9' * 40, '1.5', 'TRUE ', ' true', 'True', 'tRuE', 'false', 'maybe',
           'uint128', 'String', 'UINT8', 'reference', 'datetime', 'boolean',
@@ -396,7 +399,14 @@ def mutate(rng, data, pool):
             cands = [e for e in els if e.attrib]
             e = rng.choice(cands)
             a = rng.choice(sorted(e.attrib))
-            e.set(a, rng.choice(TOKENS))
+            if rng.random() < 0.35:
+                # the legal value, padded with white space or a look-alike
+                pad = rng.choice(PADS)
+                e.set(a, e.get(a) + pad if rng.random() < 0.7
+                      else pad + e.get(a))
+                kind += '-padded'
+            else:
+                e.set(a, rng.choice(TOKENS))
             kind += ':' + a
         elif kind == 'attr-drop':
             cands = [e for e in els if e.attrib]
@@ -418,7 +428,12 @@ def mutate(rng, data, pool):
         elif kind == 'text':
             cands = [e for e in els if e.tag in ('VALUE', 'KEYVALUE')]
             e = rng.choice(cands)
-            e.text = rng.choice(TOKENS)
+            if e.text and rng.random() < 0.3:
+                pad = rng.choice(PADS)
+                e.text = e.text + pad if rng.random() < 0.7 else pad + e.text
+                kind += '-padded'
+            else:
+                e.text = rng.choice(TOKENS)
         elif kind == 'el-drop':
             cands = [e for e in els if e.getparent() is not None]
             e = rng.choice(cands)
@@ -620,9 +635,26 @@ def run_case(ctx, i, rng):
                         b'</SIMPLEEXPRSP></MESSAGE></CIM>')
             return xmlserver.error_response(op, 1, 'vf facade failure')
 
+    recorded = None
+    if ctx.replay:
+        # the facade's repository and the splice pool carry state from earlier
+        # cases of the worker: a replay answers with the recorded bytes
+        rd = (getattr(ctx, 'replay_rec', None) or {}).get('detail', {})
+        rd = rd.get('case', rd)
+        if rd.get('response_b64') is not None:
+            recorded = (base64.b64decode(rd['response_b64']),
+                        rd.get('response_status', 200),
+                        rd.get('response_headers'))
+
     def handler(request):
         n = script['n']
         script['n'] += 1
+        if recorded is not None and n == target:
+            script['sent'].append(recorded[0])
+            script['reached'] = recorded[1] == 200
+            script['target'] = recorded
+            return transport.Scripted(body=recorded[0], status=recorded[1],
+                                      headers=recorded[2])
         if n != target and rclass != 'valid':
             body = valid_answer(request)
             script['sent'].append(body)
@@ -679,6 +711,7 @@ def run_case(ctx, i, rng):
         script['sent'].append(body)
         if status == 200:
             script['reached'] = True
+        script['target'] = (body, status, headers)
         return transport.Scripted(body=body, status=status, headers=headers)
 
     conn, adapter = transport.make_conn(
@@ -705,6 +738,12 @@ def run_case(ctx, i, rng):
               'mutation': script.get('mut'), 'fault': script.get('detail'),
               'payload_on_request': target,
               'requests_seen': len(adapter.requests)}
+    if script.get('target') and script['target'][0] is not None and \
+            len(script['target'][0]) < 300000:
+        detail['response_b64'] = base64.b64encode(
+            script['target'][0]).decode('ascii')
+        detail['response_status'] = script['target'][1]
+        detail['response_headers'] = script['target'][2]
     sent = [b for b in script['sent'] if b is not None]
     if sent:
         detail['response'] = short(sent[min(target, len(sent) - 1)]
